@@ -350,7 +350,8 @@ func (k *keeper) doAccountSettle(ctx sdk.Context, id types.AccountID) (types.Acc
 	heightDelta := sdk.NewInt(ctx.BlockHeight() - account.SettledAt)
 
 	if heightDelta.IsZero() {
-		return account, nil, false, nil
+		// nothing to settle, but callers still act on the account's open payments.
+		return account, k.accountOpenPayments(ctx, id), false, nil
 	}
 
 	account.SettledAt = ctx.BlockHeight()
@@ -473,6 +474,8 @@ func (k *keeper) accountWithdraw(ctx sdk.Context, obj *types.Account) error {
 	}
 
 	if obj.Balance.IsZero() {
+		// nothing to send, but state changes made by the caller must be persisted.
+		k.saveAccount(ctx, obj)
 		return nil
 	}
 
@@ -494,6 +497,8 @@ func (k *keeper) paymentWithdraw(ctx sdk.Context, obj *types.Payment) error {
 	}
 
 	if obj.Balance.IsZero() {
+		// nothing to send, but state changes made by the caller must be persisted.
+		k.savePayment(ctx, obj)
 		return nil
 	}
 
